@@ -220,6 +220,7 @@ func judgeC09(hi *Hist) []*Violation {
 		}
 		// getters: compared while the reference is not terminal, and once right after the
 		// operation that made it terminal ("reaching it completes the bar")
+		note("c09_getters_compared")
 		desc := fmt.Sprintf("initial total %d, after %v", hi.Sc.Bars[0].Total, seq)
 		switch op.Op.K {
 		case h.OpCurrent:
@@ -260,6 +261,7 @@ func judgeC09(hi *Hist) []*Violation {
 				continue
 			}
 			rec := e.V.(h.SpyRec)
+			note("c09_stats_compared")
 			if rec.Current != sp.m.Current || rec.Total != sp.m.Total || rec.Refill != sp.m.Refill || rec.Completed != sp.m.Completed || rec.Aborted != sp.m.Aborted {
 				add("statistics", "a frame drawn between two operations shows current=%d total=%d refill=%d completed=%v aborted=%v, reference current=%d total=%d refill=%d completed=%v aborted=%v",
 					rec.Current, rec.Total, rec.Refill, rec.Completed, rec.Aborted, sp.m.Current, sp.m.Total, sp.m.Refill, sp.m.Completed, sp.m.Aborted)
@@ -356,6 +358,7 @@ func judgeC11(hi *Hist) []*Violation {
 			}
 		}
 		for _, o := range list {
+			note("c11_observations")
 			if o.c == 0 && cSeen >= 0 && o.inv > cSeen {
 				add("completed-reverted", "bar %d: %s reported not completed (log %d) after Completed had been observed true (log %d)", bar, o.src, o.inv, cSeen)
 			}
@@ -618,7 +621,11 @@ func judgeC10(hi *Hist) []*Violation {
 			DescribeOperation: func(in, outp interface{}) string { op := in.(h.Op); return fmt.Sprintf("%s(%d,%v)->%d", h.OpNames[op.K], op.N, op.Flag, outp.(int64)) },
 		}
 		model := nm.ToModel()
+		note("c10_histories_checked")
 		res := porcupine.CheckOperationsTimeout(model, ops, 20*time.Second)
+		if res == porcupine.Unknown {
+			note("c10_porcupine_unknown")
+		}
 		if res == porcupine.Illegal {
 			var desc []string
 			for _, o := range ops {
